@@ -340,6 +340,11 @@ impl RunningReader {
         let celestia_search_height_max_look_ahead =
             rollup_state.celestia_search_height_max_look_ahead();
 
+        // verif hook: `BlobVerifier` takes the simulator's client type in the harness build.
+        #[cfg(all(test, feature = "verif"))]
+        let sequencer_cometbft_client =
+            verify::verif::SimClient::from_http(sequencer_cometbft_client);
+
         Ok(Self {
             block_cache,
             blob_verifier: Arc::new(
